@@ -52,6 +52,17 @@ def NoTemp (ops : List (Op σ)) : Prop :=
     | .genID a => a ≠ 0
     | _ => True
 
+/-- the slab handed to `Store` by this operation (if it is one) can be encoded -/
+def EncOp : Op σ → Prop
+  | .store _ v => (c.enc v).isSome
+  | _ => True
+
+/-- Every slab the history hands to `Store` can be encoded.  This is what real codecs offer: their
+    encoder is PARTIAL (it refuses slabs that violate its preconditions, e.g. `E2E.keyedCodec` on a
+    slab that is not `OkS`), so a total encoder must not be assumed; the containers only ever store
+    slabs that meet the preconditions (`E2E.stored_slabs_encodable`). -/
+def StoresEncodable (ops : List (Op σ)) : Prop := ∀ op ∈ ops, EncOp c op
+
 /-! ### Simulation between two runs of the same client history (helpers) -/
 
 /-- no pending change under the temporary address -/
@@ -64,6 +75,7 @@ structure Keeps (s s' : St σ β) : Prop where
   target : ∀ id, target c s' id = target c s id
   alloc : s'.alloc = s.alloc
   noTemp : NoTempDeltas s'
+  noEnc : NoEncodeFailure c s'
 
 theorem applyMaint_commit_eq (s : St σ β) (kind : CommitKind) (mo dlo : List SlabID) :
     applyMaint c s (.commit kind mo dlo) = (commitW c kind (fun _ => false) mo dlo s).st := by
@@ -72,20 +84,20 @@ theorem applyMaint_commit_eq (s : St σ β) (kind : CommitKind) (mo dlo : List S
 theorem noEnc_of_total (hEnc : ∀ v : σ, (c.enc v).isSome) (s : St σ β) : NoEncodeFailure c s :=
   fun _ v _ => hEnc v
 
-theorem applyMaint_keeps (hc : RoundTrip c) (hEnc : ∀ v : σ, (c.enc v).isSome) (s : St σ β)
-    (hI : Inv c s) (hnt : NoTempDeltas s) (m : Maint) : Keeps c s (applyMaint c s m) := by
+theorem applyMaint_keeps (hc : RoundTrip c) (s : St σ β)
+    (hI : Inv c s) (hnt : NoTempDeltas s) (hne : NoEncodeFailure c s) (m : Maint) :
+    Keeps c s (applyMaint c s m) := by
   cases m with
   | commit kind mo dlo =>
     rw [applyMaint_commit_eq]
     obtain ⟨h1, h2, _⟩ := commitW_spec c hc kind (fun _ => false) mo dlo s hI
     exact ⟨h1, h2.view, h2.target, (commitW_aux c kind _ mo dlo s).1,
-      fun id ht => (h2.temp id ht).trans (hnt id ht)⟩
+      fun id ht => (h2.temp id ht).trans (hnt id ht), h2.noEncodeFailure hne⟩
   | dropCache =>
-    exact ⟨inv_dropCache c s hI, view_dropCache c s hI, fun _ => rfl, rfl, hnt⟩
+    exact ⟨inv_dropCache c s hI, view_dropCache c s hI, fun _ => rfl, rfl, hnt, hne⟩
   | commitAndReopen =>
     obtain ⟨h1, h2, _⟩ := commitW_spec c hc .det (fun _ => false) [] [] s hI
-    obtain ⟨_, g2, g3⟩ := commitW_complete c hc .det (fun _ => false) (fun _ => rfl) [] [] s hI
-      (noEnc_of_total c hEnc s)
+    obtain ⟨_, g2, g3⟩ := commitW_complete c hc .det (fun _ => false) (fun _ => rfl) [] [] s hI hne
     have hres : applyMaint c s .commitAndReopen =
         { (St.fresh (commitW c .det (fun _ => false) [] [] s).st.base
             (commitW c .det (fun _ => false) [] [] s).st.alloc : St σ β) with
@@ -98,7 +110,7 @@ theorem applyMaint_keeps (hc : RoundTrip c) (hEnc : ∀ v : σ, (c.enc v).isSome
       cases ht : id.isTemp with
       | true => exact (h2.temp id ht).trans (hnt id ht)
       | false => exact g2 id ht
-    refine ⟨inv_setAux c _ (inv_fresh c r h1) r.tempIx r.alloc, ?_, ?_, ?_, fun _ _ => rfl⟩
+    refine ⟨inv_setAux c _ (inv_fresh c r h1) r.tempIx r.alloc, ?_, ?_, ?_, fun _ _ => rfl, ?_⟩
     · intro id
       rw [← h2.view id, view_of_not_pending c r h1 id (hall id)]
       simp [St.view, St.fresh, St.committed]
@@ -106,20 +118,23 @@ theorem applyMaint_keeps (hc : RoundTrip c) (hEnc : ∀ v : σ, (c.enc v).isSome
       rw [← g3 id]
       simp [target, St.fresh]
     · exact halloc
+    · intro id v hv
+      simp [St.fresh] at hv
 
-theorem Keeps.refl (s : St σ β) (hI : Inv c s) (hnt : NoTempDeltas s) : Keeps c s s :=
-  ⟨hI, fun _ => rfl, fun _ => rfl, rfl, hnt⟩
+theorem Keeps.refl (s : St σ β) (hI : Inv c s) (hnt : NoTempDeltas s) (hne : NoEncodeFailure c s) :
+    Keeps c s s :=
+  ⟨hI, fun _ => rfl, fun _ => rfl, rfl, hnt, hne⟩
 
-theorem foldl_applyMaint_keeps (hc : RoundTrip c) (hEnc : ∀ v : σ, (c.enc v).isSome)
-    (ms : List Maint) (s : St σ β) (hI : Inv c s) (hnt : NoTempDeltas s) :
+theorem foldl_applyMaint_keeps (hc : RoundTrip c)
+    (ms : List Maint) (s : St σ β) (hI : Inv c s) (hnt : NoTempDeltas s) (hne : NoEncodeFailure c s) :
     Keeps c s (ms.foldl (applyMaint c) s) := by
   induction ms generalizing s with
-  | nil => exact Keeps.refl c s hI hnt
+  | nil => exact Keeps.refl c s hI hnt hne
   | cons m ms ih =>
-    have h1 := applyMaint_keeps c hc hEnc s hI hnt m
-    have h2 := ih (applyMaint c s m) h1.inv h1.noTemp
+    have h1 := applyMaint_keeps c hc s hI hnt hne m
+    have h2 := ih (applyMaint c s m) h1.inv h1.noTemp h1.noEnc
     exact ⟨h2.inv, fun id => (h2.view id).trans (h1.view id),
-      fun id => (h2.target id).trans (h1.target id), h2.alloc.trans h1.alloc, h2.noTemp⟩
+      fun id => (h2.target id).trans (h1.target id), h2.alloc.trans h1.alloc, h2.noTemp, h2.noEnc⟩
 
 /-- The simulation relation between the two runs. -/
 structure Sim (s1 s2 : St σ β) : Prop where
@@ -127,22 +142,25 @@ structure Sim (s1 s2 : St σ β) : Prop where
   inv2 : Inv c s2
   nt1 : NoTempDeltas s1
   nt2 : NoTempDeltas s2
+  ne1 : NoEncodeFailure c s1
+  ne2 : NoEncodeFailure c s2
   view : ∀ id, s1.view c id = s2.view c id
   target : ∀ id, target c s1 id = target c s2 id
   alloc : ∀ a, AList.find? s1.alloc a = AList.find? s2.alloc a
 
 theorem Sim.init : Sim c (St.init : St σ β) (St.init : St σ β) :=
-  ⟨inv_init c, inv_init c, fun _ _ => rfl, fun _ _ => rfl, fun _ => rfl, fun _ => rfl, fun _ => rfl⟩
+  ⟨inv_init c, inv_init c, fun _ _ => rfl, fun _ _ => rfl, fun _ _ h => by simp [St.init, St.fresh] at h,
+    fun _ _ h => by simp [St.init, St.fresh] at h, fun _ => rfl, fun _ => rfl, fun _ => rfl⟩
 
 theorem Sim.of_keeps {s1 s2 s1' s2' : St σ β} (h : Sim c s1 s2) (k1 : Keeps c s1 s1')
     (k2 : Keeps c s2 s2') : Sim c s1' s2' :=
-  ⟨k1.inv, k2.inv, k1.noTemp, k2.noTemp,
+  ⟨k1.inv, k2.inv, k1.noTemp, k2.noTemp, k1.noEnc, k2.noEnc,
     fun id => ((k1.view id).trans (h.view id)).trans (k2.view id).symm,
     fun id => ((k1.target id).trans (h.target id)).trans (k2.target id).symm,
     fun a => by rw [k1.alloc, k2.alloc]; exact h.alloc a⟩
 
 theorem Sim.insertDelta {s1 s2 : St σ β} (h : Sim c s1 s2) (id : SlabID) (hid : id.isTemp = false)
-    (ov : Option σ) :
+    (ov : Option σ) (hov : ∀ v, ov = some v → (c.enc v).isSome) :
     Sim c { s1 with deltas := AList.insert s1.deltas id ov }
           { s2 with deltas := AList.insert s2.deltas id ov } := by
   have hnt : ∀ (s : St σ β), NoTempDeltas s →
@@ -153,9 +171,17 @@ theorem Sim.insertDelta {s1 s2 : St σ β} (h : Sim c s1 s2) (id : SlabID) (hid 
     rw [AList.find?_insert]
     simp only [hne, if_false]
     exact hs j hj
+  have hne : ∀ (s : St σ β), NoEncodeFailure c s →
+      NoEncodeFailure c ({ s with deltas := AList.insert s.deltas id ov } : St σ β) := by
+    intro s hs j v hj
+    have hj' : AList.find? (AList.insert s.deltas id ov) j = some (some v) := hj
+    rw [AList.find?_insert] at hj'
+    split at hj'
+    · exact hov v (Option.some.inj hj')
+    · exact hs j v hj'
   refine ⟨inv_setDeltas c s1 h.inv1 _ (AList.nodup_keys_insert _ _ _ h.inv1.deltasNodup),
     inv_setDeltas c s2 h.inv2 _ (AList.nodup_keys_insert _ _ _ h.inv2.deltasNodup),
-    hnt s1 h.nt1, hnt s2 h.nt2, ?_, ?_, h.alloc⟩
+    hnt s1 h.nt1, hnt s2 h.nt2, hne s1 h.ne1, hne s2 h.ne2, ?_, ?_, h.alloc⟩
   · intro j
     rw [view_insertDelta, view_insertDelta, h.view j]
   · intro j
@@ -167,14 +193,18 @@ theorem not_undef_of_owned (id : SlabID) (hid : id.isTemp = false) : id ≠ Slab
   cases hid
 
 /-- A read keeps everything. -/
-theorem retrieve_keeps (s : St σ β) (hI : Inv c s) (hnt : NoTempDeltas s) (id : SlabID) :
+theorem retrieve_keeps (s : St σ β) (hI : Inv c s) (hnt : NoTempDeltas s) (hne : NoEncodeFailure c s)
+    (id : SlabID) :
     ∃ s', St.step c s (.retrieve id) = (s', .slab (s.view c id)) ∧ Keeps c s s' := by
   obtain ⟨s', h1, h2, h3, h4, h5⟩ := retrieve_spec c s hI id
   refine ⟨s', by simp [St.step, h1], h2, fun j => by rw [h3], target_congr c s s' h4 h5,
-    (retrieve_frame c s s' id _ h1).2.2.1, ?_⟩
-  intro j hj
-  rw [h4]
-  exact hnt j hj
+    (retrieve_frame c s s' id _ h1).2.2.1, ?_, ?_⟩
+  · intro j hj
+    rw [h4]
+    exact hnt j hj
+  · intro j v hj
+    rw [h4] at hj
+    exact hne j v hj
 
 /-- One client operation from related states: same observation, related states. -/
 theorem step_sim {s1 s2 : St σ β} (h : Sim c s1 s2) (op : Op σ)
@@ -182,27 +212,28 @@ theorem step_sim {s1 s2 : St σ β} (h : Sim c s1 s2) (op : Op σ)
       | .store id _ => id.isTemp = false
       | .remove id => id.isTemp = false
       | .genID a => a ≠ 0
-      | _ => True) (hcl : clientOp op = true) :
+      | _ => True)
+    (henc : EncOp c op) (hcl : clientOp op = true) :
     (St.step c s1 op).2 = (St.step c s2 op).2 ∧ Sim c (St.step c s1 op).1 (St.step c s2 op).1 := by
   cases op with
   | store id v =>
     have hu := not_undef_of_owned id hnt
     simp only [St.step, St.store, hu, if_false]
-    exact ⟨by trivial, h.insertDelta c id hnt (some v)⟩
+    exact ⟨by trivial, h.insertDelta c id hnt (some v) (fun w hw => by cases hw; exact henc)⟩
   | remove id =>
     have hu := not_undef_of_owned id hnt
     simp only [St.step, St.remove, hu, if_false]
-    exact ⟨by trivial, h.insertDelta c id hnt none⟩
+    exact ⟨by trivial, h.insertDelta c id hnt none (fun w hw => by cases hw)⟩
   | retrieve id =>
-    obtain ⟨t1, e1, k1⟩ := retrieve_keeps c s1 h.inv1 h.nt1 id
-    obtain ⟨t2, e2, k2⟩ := retrieve_keeps c s2 h.inv2 h.nt2 id
+    obtain ⟨t1, e1, k1⟩ := retrieve_keeps c s1 h.inv1 h.nt1 h.ne1 id
+    obtain ⟨t2, e2, k2⟩ := retrieve_keeps c s2 h.inv2 h.nt2 h.ne2 id
     rw [e1, e2]
     exact ⟨by rw [h.view id], h.of_keeps c k1 k2⟩
   | genID a =>
     have ha : a ≠ 0 := hnt
     simp only [St.step, St.generateSlabID, ha, if_false]
     refine ⟨by rw [h.alloc a], inv_setAux c s1 h.inv1 s1.tempIx _, inv_setAux c s2 h.inv2 s2.tempIx _,
-      h.nt1, h.nt2, h.view, h.target, ?_⟩
+      h.nt1, h.nt2, h.ne1, h.ne2, h.view, h.target, ?_⟩
     intro b
     show AList.find? (AList.insert s1.alloc a _) b = AList.find? (AList.insert s2.alloc a _) b
     rw [AList.find?_insert, AList.find?_insert, h.alloc a, h.alloc b]
@@ -221,8 +252,8 @@ theorem runWith_cons (s : St σ β) (op : Op σ) (ms : List Maint) (rest : List 
          (runWith c (St.step c (ms.foldl (applyMaint c) s) op).1 rest).2) := rfl
 
 /-- The two runs stay related and produce the same observations. -/
-theorem runWith_sim (hc : RoundTrip c) (hEnc : ∀ v : σ, (c.enc v).isSome)
-    (ops : List (Op σ)) (hcl : ∀ op ∈ ops, clientOp op = true) (hnt : NoTemp ops)
+theorem runWith_sim (hc : RoundTrip c)
+    (ops : List (Op σ)) (hEnc : StoresEncodable c ops) (hcl : ∀ op ∈ ops, clientOp op = true) (hnt : NoTemp ops)
     (sched1 sched2 : List (List Maint)) (h1 : sched1.length = ops.length) (h2 : sched2.length = ops.length)
     (s1 s2 : St σ β) (h : Sim c s1 s2) :
     (runWith c s1 (ops.zip sched1)).2 = (runWith c s2 (ops.zip sched2)).2 ∧
@@ -238,12 +269,13 @@ theorem runWith_sim (hc : RoundTrip c) (hEnc : ∀ v : σ, (c.enc v).isSome)
       | cons ms2 sched2 =>
         simp only [List.length_cons, Nat.add_right_cancel_iff] at h1 h2
         rw [List.zip_cons_cons, List.zip_cons_cons, runWith_cons, runWith_cons]
-        have k1 := foldl_applyMaint_keeps c hc hEnc ms1 s1 h.inv1 h.nt1
-        have k2 := foldl_applyMaint_keeps c hc hEnc ms2 s2 h.inv2 h.nt2
+        have k1 := foldl_applyMaint_keeps c hc ms1 s1 h.inv1 h.nt1 h.ne1
+        have k2 := foldl_applyMaint_keeps c hc ms2 s2 h.inv2 h.nt2 h.ne2
         have hsim := h.of_keeps c k1 k2
         obtain ⟨hobs, hsim'⟩ := step_sim c hsim op (hnt op (List.mem_cons_self ..))
-          (hcl op (List.mem_cons_self ..))
-        obtain ⟨g1, g2⟩ := ih (fun o ho => hcl o (List.mem_cons_of_mem _ ho))
+          (hEnc op (List.mem_cons_self ..)) (hcl op (List.mem_cons_self ..))
+        obtain ⟨g1, g2⟩ := ih (fun o ho => hEnc o (List.mem_cons_of_mem _ ho))
+          (fun o ho => hcl o (List.mem_cons_of_mem _ ho))
           (fun o ho => hnt o (List.mem_cons_of_mem _ ho)) sched1 sched2 h1 h2 _ _ hsim'
         dsimp only
         exact ⟨by rw [hobs, g1], g2⟩
@@ -265,36 +297,46 @@ theorem reload_is_identity (hc : RoundTrip c) (s : St σ β) (h : Inv c s) (hne 
     simp [applyMaint, St.view, St.fresh, St.committed, commitW]
 
 /-- Schedule independence of outcomes: the same client history under ANY two maintenance
-    schedules yields the same observations and the same final view. -/
-theorem schedule_independent_outcomes (hc : RoundTrip c) (hEnc : ∀ v : σ, (c.enc v).isSome)
-    (ops : List (Op σ)) (hcl : ∀ op ∈ ops, clientOp op = true) (hnt : NoTemp ops)
+    schedules yields the same observations and the same final view.  The encoder may be partial
+    (real codecs are): it is only required that the slabs the history stores can be encoded
+    (`StoresEncodable`), not that every value of the slab type can. -/
+theorem schedule_independent_outcomes (hc : RoundTrip c)
+    (ops : List (Op σ)) (hEnc : StoresEncodable c ops) (hcl : ∀ op ∈ ops, clientOp op = true) (hnt : NoTemp ops)
     (sched1 sched2 : List (List Maint)) (h1 : sched1.length = ops.length) (h2 : sched2.length = ops.length) :
     let r1 := runWith c (St.init : St σ β) (ops.zip sched1)
     let r2 := runWith c (St.init : St σ β) (ops.zip sched2)
     r1.2 = r2.2 ∧ (∀ id, r1.1.view c id = r2.1.view c id) := by
   intro r1 r2
-  obtain ⟨g1, g2⟩ := runWith_sim c hc hEnc ops hcl hnt sched1 sched2 h1 h2 _ _ (Sim.init c)
+  obtain ⟨g1, g2⟩ := runWith_sim c hc ops hEnc hcl hnt sched1 sched2 h1 h2 _ _ (Sim.init c)
   exact ⟨g1, g2.view⟩
 
 /-- … and after a final commit the ledger registers are identical (as a function of the
-    identifier) under all such schedules. -/
-theorem schedule_independent_ledger (hc : RoundTrip c) (hEnc : ∀ v : σ, (c.enc v).isSome)
-    (ops : List (Op σ)) (hcl : ∀ op ∈ ops, clientOp op = true) (hnt : NoTemp ops)
+    identifier) under all such schedules (same hypothesis on the encoder: partial, but defined on
+    what the history stores). -/
+theorem schedule_independent_ledger (hc : RoundTrip c)
+    (ops : List (Op σ)) (hEnc : StoresEncodable c ops) (hcl : ∀ op ∈ ops, clientOp op = true) (hnt : NoTemp ops)
     (sched1 sched2 : List (List Maint)) (h1 : sched1.length = ops.length) (h2 : sched2.length = ops.length) :
     let f1 := ((runWith c (St.init : St σ β) (ops.zip sched1)).1.fastCommit c (fun _ => false)).st
     let f2 := ((runWith c (St.init : St σ β) (ops.zip sched2)).1.fastCommit c (fun _ => false)).st
     ∀ id, AList.find? f1.base id = AList.find? f2.base id := by
   intro f1 f2 id
-  obtain ⟨_, g2⟩ := runWith_sim c hc hEnc ops hcl hnt sched1 sched2 h1 h2 _ _ (Sim.init c)
+  obtain ⟨_, g2⟩ := runWith_sim c hc ops hEnc hcl hnt sched1 sched2 h1 h2 _ _ (Sim.init c)
   obtain ⟨_, _, a3⟩ := commitW_complete c hc .det (fun _ => false) (fun _ => rfl) [] []
-    (runWith c (St.init : St σ β) (ops.zip sched1)).1 g2.inv1 (noEnc_of_total c hEnc _)
+    (runWith c (St.init : St σ β) (ops.zip sched1)).1 g2.inv1 g2.ne1
   obtain ⟨_, _, b3⟩ := commitW_complete c hc .det (fun _ => false) (fun _ => rfl) [] []
-    (runWith c (St.init : St σ β) (ops.zip sched2)).1 g2.inv2 (noEnc_of_total c hEnc _)
+    (runWith c (St.init : St σ β) (ops.zip sched2)).1 g2.inv2 g2.ne2
   show AList.find? (commitW c .det (fun _ => false) [] []
       (runWith c (St.init : St σ β) (ops.zip sched1)).1).st.base id =
     AList.find? (commitW c .det (fun _ => false) [] []
       (runWith c (St.init : St σ β) (ops.zip sched2)).1).st.base id
   rw [a3 id, b3 id, g2.target id]
+
+/-- A total encoder is a special case of `StoresEncodable` (the hypothesis of the earlier version of
+    the two theorems above). -/
+theorem storesEncodable_of_total (hEnc : ∀ v : σ, (c.enc v).isSome) (ops : List (Op σ)) :
+    StoresEncodable c ops := by
+  intro op _
+  cases op <;> first | exact hEnc _ | trivial
 
 /-! ### Non-vacuity
 
@@ -318,6 +360,21 @@ def schedB : List (List Maint) :=
 
 theorem natEnc : ∀ v : Nat, (natCodec.enc v).isSome := fun _ => rfl
 
+/-- a PARTIAL codec on `Nat` (the encoder refuses 13), as real codecs are: the theorems apply to it
+    for histories that do not store 13, and the hypothesis is necessary (see the last example). -/
+def oddCodec : Codec Nat Nat := { natCodec with enc := fun v => if v = 13 then none else some v }
+theorem oddCodec_roundTrip : RoundTrip oddCodec := by
+  intro id v b h
+  simp only [oddCodec] at h
+  split at h
+  · cases h
+  · cases h; rfl
+theorem exHist_enc : StoresEncodable oddCodec exHist := by
+  intro op hop
+  simp only [exHist, List.mem_cons, List.not_mem_nil, or_false] at hop
+  rcases hop with rfl | rfl | rfl | rfl | rfl <;> first | trivial | decide
+example : ¬ (∀ v : Nat, (oddCodec.enc v).isSome) := fun h => by have := h 13; revert this; decide
+
 example : (∀ op ∈ exHist, clientOp op = true) ∧ schedA.length = exHist.length ∧
     schedB.length = exHist.length := by decide
 theorem exHist_noTemp : NoTemp exHist := by
@@ -340,16 +397,29 @@ example :
     r1.2 = [.id ⟨1, 1⟩, .unit, .unit, .unit, .slab (some 5)] ∧ r2.2 = r1.2 ∧
     r1.1.view natCodec ⟨1, 1⟩ = some 5 ∧ r2.1.view natCodec ⟨1, 1⟩ = some 5 ∧
     r1.1.view natCodec ⟨1, 2⟩ = none ∧ r2.1.view natCodec ⟨1, 2⟩ = none := by decide
-example := schedule_independent_outcomes natCodec roundTrip natEnc exHist (by decide) exHist_noTemp
-  schedA schedB rfl rfl
+example := schedule_independent_outcomes natCodec roundTrip exHist (storesEncodable_of_total natCodec natEnc _)
+  (by decide) exHist_noTemp schedA schedB rfl rfl
+example := schedule_independent_outcomes oddCodec oddCodec_roundTrip exHist exHist_enc
+  (by decide) exHist_noTemp schedA schedB rfl rfl
 
 /-- `schedule_independent_ledger`: after a final commit both ledgers hold exactly `1.1 ↦ 5`. -/
 example :
     let f1 := ((runWith natCodec (St.init : St Nat Nat) (exHist.zip schedA)).1.fastCommit natCodec (fun _ => false)).st
     let f2 := ((runWith natCodec (St.init : St Nat Nat) (exHist.zip schedB)).1.fastCommit natCodec (fun _ => false)).st
     f1.base = [(⟨1, 1⟩, 5)] ∧ f2.base = [(⟨1, 1⟩, 5)] := by decide
-example := schedule_independent_ledger natCodec roundTrip natEnc exHist (by decide) exHist_noTemp
-  schedA schedB rfl rfl
+example := schedule_independent_ledger natCodec roundTrip exHist (storesEncodable_of_total natCodec natEnc _)
+  (by decide) exHist_noTemp schedA schedB rfl rfl
+example := schedule_independent_ledger oddCodec oddCodec_roundTrip exHist exHist_enc
+  (by decide) exHist_noTemp schedA schedB rfl rfl
+
+/-- `StoresEncodable` is a necessary hypothesis: if the history stores a slab the encoder refuses,
+    a commit-and-reopen in the schedule fails to persist it and the read that follows sees the
+    schedule (without maintenance the slab is served from the write set). -/
+example :
+    let hist : List (Op Nat) := [.store ⟨1, 1⟩ 13, .retrieve ⟨1, 1⟩]
+    (runWith oddCodec (St.init : St Nat Nat) (hist.zip [[], []])).2 = [.unit, .slab (some 13)] ∧
+    (runWith oddCodec (St.init : St Nat Nat) (hist.zip [[], [.commitAndReopen]])).2 = [.unit, .slab none] := by
+  decide
 
 /-- `NoTemp` is a necessary hypothesis: a slab stored under the temporary address is forgotten by
     a reopen, so the read that follows observes the schedule. -/
